@@ -230,8 +230,15 @@ func strHash(s string) uint64 {
 
 // spawn registers a new thread as child of parent (nil for the root).
 func (x *Exec) spawn(parent *thread, name string, f func()) *thread {
-	t := &thread{wake: make(chan wakeMsg, 1), fn: f}
 	x.mu.Lock()
+	t := x.spawnLocked(parent, name, f)
+	x.mu.Unlock()
+	return t
+}
+
+// spawnLocked is spawn for callers that hold x.mu (a timer function that comes due while the clock is advanced).
+func (x *Exec) spawnLocked(parent *thread, name string, f func()) *thread {
+	t := &thread{wake: make(chan wakeMsg, 1), fn: f}
 	if parent == nil {
 		t.path = []int{0}
 	} else {
@@ -255,7 +262,6 @@ func (x *Exec) spawn(parent *thread, name string, f func()) *thread {
 	x.threads[pos] = t
 	t.pidHash = strHash(t.pid)
 	t.pathHash = strHash(pathName(t.path))
-	x.mu.Unlock()
 	x.exited.Add(1)
 	go func() {
 		t.gid = goid()
@@ -527,7 +533,7 @@ func (x *Exec) advanceClock() {
 			}
 		}
 		if tm.fn != nil {
-			x.spawn(nil2(x.cur, x), "afterfunc", tm.fn)
+			x.spawnLocked(nil2(x.cur, x), "afterfunc", tm.fn)
 		}
 	}
 }
